@@ -631,6 +631,13 @@ def run(ctx):
     r5.check(some is not None and some.get("name") == "entity", "get_entity_declaration:name", "the declaration node is named 'entity' (meta/entity)", ep.loc())
     rules.append(r5)
     ctx.count("abstract_paths_saveto", n_paths)
+    # the or_other block of the row loop, evaluated for select rows with and without logic cells (shared with C09.R6)
+    from . import c09 as _c09o
+    from .c08 import _take as _take_o
+    r_oo = Rule("C19", "C19.R6", "save_to of an or_other select is written on the select only", floor=6,
+                necessary="two fields saving to one entity property: the free-text companion overwrites the selected value")
+    _take_o(r_oo, _c09o.run(ctx), "C09.R6", lambda c: c.startswith("or_other["))
+    rules.append(r_oo)
     return rules
 
 
